@@ -235,6 +235,10 @@ func sendPacket(l *NDNLPLinkService, out dispatch.OutPkt) {
 
 		// Split up fragment
 		effectiveMtu := l.transport.MTU() - l.headerOverhead - headerSize
+		if effectiveMtu <= 0 {
+			core.LogWarn(l, "MTU leaves no room for a fragment after the link-layer headers - DROP")
+			return
+		}
 		nFragments := int((len(wire) + effectiveMtu - 1) / effectiveMtu)
 		fragments = make([]*spec.LpPacket, nFragments)
 		reader := enc.NewBufferReader(wire)
